@@ -346,6 +346,40 @@ def replay_journal(body):
         shutil.rmtree(d, ignore_errors=True)
 
 
+def replay_journal_creation(body):
+    """every state a kill during the creation of the journal file can leave (the file exists and holds a prefix of the header):
+    the journal must open, be empty, accept an append and still hold it after another reopen"""
+    from pysyncobj.journal import createJournal
+    d = tempfile.mkdtemp(prefix='replay_jcreate_')
+    bad = []
+    try:
+        j = createJournal(os.path.join(d, 'ref.bin'))
+        j._destroy()
+        with open(os.path.join(d, 'ref.bin'), 'rb') as f:
+            header = f.read()[:40]
+        for k in range(0, 41):
+            p = os.path.join(d, 'j%d.bin' % k)
+            with open(p, 'wb') as f:
+                f.write(header[:k])
+            try:
+                j = createJournal(p)
+                n = len(j)
+                j.add(b'cmd', 1, 1)
+                j._destroy()
+                j = createJournal(p)
+                ok = len(j) == 1 and j[0] == (b'cmd', 1, 1) and n == 0
+                j._destroy()
+                if not ok:
+                    bad.append('kill after %d header bytes reached the file: journal reopens wrongly' % k)
+            except Exception as e:
+                bad.append('kill after %d header bytes reached the file: reopening raises %r' % (k, e))
+        for b in bad:
+            out(b)
+        return (1 if bad else 0), ('a kill during the creation of the journal file leaves a file that cannot be opened' if bad else 'every creation kill state reopens as an empty journal')
+    finally:
+        shutil.rmtree(d, ignore_errors=True)
+
+
 def replay_meta(body):
     """kill-point enumeration on the real MetaStorer.storeMeta: the k-th primitive file operation (open / write / flush / close /
     os.remove / os.rename / shutil.move ...) is the last one to happen before the process dies; the .meta file is then read back"""
@@ -478,6 +512,7 @@ REPLAYERS = {
     'ResizableFile.write': replay_journal, 'FileJournal.add': replay_journal, 'FileJournal.reopen': replay_journal,
     'FileJournal.deleteEntriesFrom': replay_journal, 'FileJournal.clear': replay_journal,
     'MetaStorer.storeMeta': replay_meta,
+    'ResizableFile.open': replay_journal_creation,
 }
 
 
